@@ -128,7 +128,7 @@ def _tree_s2i(ctx, thorough):
     ctx.require_ok(g2, "Gen_ZoneTree_states")
     sim = os.path.join(ctx.work, "tree-sim.ndjson")
     g3 = ctx.tlc("Gen_ZoneTree", "Gen_ZoneTree_sim", workers=1, label="gen-tree-sim", coverage=False,
-                 cases_to=sim, count=False, simulate=(200 if thorough else 30), depth=15, timeout=3000)
+                 cases_to=sim, count=False, simulate=(200 if thorough else 20), depth=15, timeout=3000)
     ctx.require_ok(g3, "Gen_ZoneTree_sim")
     if g1.ncases < 20000 or g2.ncases < 5000 or g3.ncases < 300:
         raise vlib.ToolError("tree generators produced too few behaviours: %s %s %s" %
@@ -153,7 +153,7 @@ def _versions_s2i(ctx, thorough):
     ctx.require_ok(g1, "Gen_ZoneVersions_states")
     sim = os.path.join(ctx.work, "ver-sim.ndjson")
     g2 = ctx.tlc("Gen_ZoneVersions", "Gen_ZoneVersions_sim", workers=1, label="gen-ver-sim", coverage=False,
-                 cases_to=sim, count=False, simulate=(2000 if thorough else 300), depth=31, timeout=3000)
+                 cases_to=sim, count=False, simulate=(2000 if thorough else 200), depth=31, timeout=3000)
     ctx.require_ok(g2, "Gen_ZoneVersions_sim")
     if g1.ncases < 3000 or g2.ncases < 300:
         raise vlib.ToolError("version generators produced too few behaviours: %s %s" % (g1.ncases, g2.ncases))
